@@ -37,6 +37,13 @@ def workload(tier: str, seed: int) -> tuple[list[dict], list[dict], dict]:
         ast = gen.random_counts_def(rngc)
         cdefs.append({"name": f"cnt{i}", "kind": "counts", "ast": ast,
                       "tags": sorted(gen.tags_of(ast) | {"beyond-F", "counts"})})
+    fam = gen.counts_family()
+    if tier == "quick":
+        start = (seed * 9) % len(fam)
+        fam = (fam + fam)[start:start + 9]
+    for i, ast in enumerate(fam):
+        cdefs.append({"name": f"cntfam{i}", "kind": "counts", "ast": ast,
+                      "tags": sorted(gen.tags_of(ast) | {"beyond-F", "counts", "counts-family"})})
     cgroups, _cst = lcase.s1_cases(cdefs, seed, k_list=(2,), schedules=1)
     for c in cgroups:
         c["counts"] = True
